@@ -282,7 +282,8 @@ def random_world(rng: Any, idx: int) -> dict[str, Any]:
         names = rng.sample(["a", "b", "b_x", "c", "m0", "z", "_p"], rng.randint(0, 3))
         kids = [leaf(n) for n in names]
         if depth < 3:
-            for sn in rng.sample(["sub", "a_sub", "x1"], rng.randint(0, 2)):
+            # "sub"/"sub2", "x1"/"x1y": siblings one of whose dotted names is a textual prefix of the other's
+            for sn in rng.sample(["sub", "sub2", "a_sub", "x1", "x1y"], rng.randint(0, 3)):
                 kids.append(pkg(sn, depth + 1))
         rng.shuffle(kids)
         return mk_pkg(name, kids)
@@ -292,6 +293,11 @@ def random_world(rng: Any, idx: int) -> dict[str, Any]:
         tree.append(pkg(f"rvo{idx}", 2))
     for i in range(rng.randint(0, 2)):
         tree.append(leaf(f"rvm{idx}_{i}"))
+    # load targets whose names extend the name of another target without being inside it
+    if rng.random() < 0.6:
+        tree.append(pkg(f"rvp{idx}x", 2))
+    if rng.random() < 0.5:
+        tree.append(leaf(f"rvp{idx}_m"))
     return {"id": f"rand{idx}", "tree": tree, "ep": None}
 
 
